@@ -147,9 +147,10 @@ where
     // SI prefixes mutually consistent: S_u / S_v == 10^(e_u - e_v), exactly.  Exponents are the ones the
     // implementation reports.  Decimal: on the reported values; f64: the reported value must be the
     // correctly rounded literal (checked above), so the relation is checked on the literals' exact values.
+    let catalogue = b.tm.universe == "main" || b.tm.universe == "astro";
     for i in 0..b.n() {
         for j in 0..b.n() {
-            if i == j {
+            if i == j || !catalogue {
                 continue;
             }
             let (pi, pj) = match guard(|| (b.units[i].si_prefix().map(|p| p.exp()), b.units[j].si_prefix().map(|p| p.exp()))) {
